@@ -405,6 +405,11 @@ func (e *Exporter) exportJSON(chunks []*Chunk, w io.Writer) error {
 func (e *Exporter) exportCSV(chunks []*Chunk, w io.Writer) error {
 	csvWriter := csv.NewWriter(w)
 	csvWriter.Comma = e.config.CSVDelimiter
+	if e.config.Format == ExportFormatTSV && e.config.CSVDelimiter == ',' {
+		// The TSV format was chosen on a configuration that still carries the
+		// CSV default delimiter: tab-separated values are separated by tabs
+		csvWriter.Comma = '\t'
+	}
 
 	// Collect all possible columns from all chunks
 	columns := e.collectCSVColumns(chunks)
